@@ -405,6 +405,54 @@ Definition pl_outcomes (s : pl_state) : list (pl_outcome * option N) :=
 Definition pl_history_outcomes (tcp : bool) (q0 : N) (evs : list pl_event) : list (pl_outcome * option N) * bool :=
   let s := pl_run_history tcp q0 evs in (pl_outcomes s, pl_closed s).
 
+(* ---------- both select arms ready (kind pipeline_arms) ----------
+   After the history [evs]: a new exchange writes its query, its Write returns LATE (it is written — pc Waiting — but
+   has not run its select), the server's reply with its wire id is delivered into its channel, the connection is
+   closed, and only then the exchange runs its select: the reply arm AND the connection arm are enabled.
+   conn_first chooses the arm (Go picks at random).  Every step is pl_exec, so this is a schedule of the LTS. *)
+Definition pl_settle_conn_first (t : N) (s : pl_state) : pl_state :=
+  fold_left pl_exec [PlLConnArm t; PlLCtxArm t; PlLTakeReply t; PlLDelete t; PlLEolClose t] s.
+
+Definition pl_both_arms (c tag : N) (conn_first : bool) (s : pl_state) : pl_state :=
+  let t := pl_nthreads s in
+  let s1 := fold_left pl_exec [PlLSpawn c; PlLAdd t; PlLWrite t true; PlLWrite t false] s in
+  let s2 := match pl_tget s1 t with
+            | Some th => match pl_seen_wid th with
+                         | Some w => fold_left pl_exec [PlLRecv w tag; PlLLookup; PlLSend] s1
+                         | None => s1
+                         end
+            | None => s1
+            end in
+  let s3 := pl_exec s2 PlLClose in
+  pl_settle_all ((if conn_first then pl_settle_conn_first t else pl_settle t) s3).
+
+Definition pl_arms_outcomes (tcp : bool) (q0 : N) (evs : list pl_event) (c tag : N) (conn_first : bool)
+  : list (pl_outcome * option N) * bool :=
+  let s := pl_both_arms c tag conn_first (pl_run_history tcp q0 evs) in (pl_outcomes s, pl_closed s).
+
+(* The REJECTED variant "the connection arm looks into the channel and returns a reply that made it just before the
+   close" WITHOUT restoring the id (the restore lives in the reply arm only).  Only for C05_conn_arm_reply_refuted. *)
+Definition pl_ca_step (s : pl_state) (l : pl_label) : option pl_state :=
+  match l with
+  | PlLConnArm t =>
+      match pl_tget s t with
+      | Some th =>
+          match pl_tpc th, pl_tchan th with
+          | PlPWaiting, Some m =>
+              if pl_closed s then Some (pl_tput t (pl_th_pc (PlPLeaving (PlRMsg m)) (pl_th_chan None th)) s) else None
+          | _, _ => pl_step s l
+          end
+      | None => None
+      end
+  | _ => pl_step s l
+  end.
+
+Fixpoint pl_ca_run (ls : list pl_label) (s : pl_state) : option pl_state :=
+  match ls with
+  | [] => Some s
+  | l :: r => match pl_ca_step s l with Some s' => pl_ca_run r s' | None => None end
+  end.
+
 (* ---------- executable oracle of the property on an observed run (used by the checks) ----------
    obs: per exchange (wire id the server saw for it, returned tag or none);  sent: (wire id, tag) the server
    emitted.  Holds iff every returned tag was emitted for the exchange's own wire id and no tag is returned
